@@ -95,7 +95,8 @@ func quiet() (bool, string) {
 				return false, "eventLoop busy: " + g.state
 			}
 		case strings.Contains(s, "filters.(*EventSystem).consumeEvents"):
-			if g.state != "chan receive" {
+			// "sleep": the consumeEvents of a world that was shut down (ResponsesCh closed: the outer loop sleeps and retries)
+			if g.state != "chan receive" && g.state != "sleep" {
 				return false, "consumeEvents busy: " + g.state
 			}
 		case strings.Contains(s, "filters.(*Subscription).Unsubscribe"):
@@ -574,6 +575,7 @@ func runFsHistory(t *testing.T, r *Rng, side *Sidecar, nops int) (string, fsHist
 			s.rd.listen(false)
 		}
 	}
+	w.f.shutdown()
 	return fmt.Sprintf("(PFs %s %s)", CqList(ops), CqList(snaps)), hist, nontrivial
 }
 
